@@ -25,21 +25,21 @@ import (
 // answered; a line starting with "!" is sent only once the scheduler has executed Release
 // steps (the injection instant is an enumerated dimension of the scenario family).
 type uciParams struct {
-	Engine  string            `json:"engine"` // plain | morlock | turochamp | sargon | bernstein
-	Flags   map[string]string `json:"flags,omitempty"`
-	Script  []string          `json:"script"`
-	Release int               `json:"release"`
-	Timer   int               `json:"timer"` // step from which timers may fire
-	Cap     int               `json:"cap,omitempty"`   // > 0: the driver's buffered channels are scaled down to this capacity
-	Stall   int               `json:"stall,omitempty"` // > 0: the GUI stops reading the output at this step ...
-	StallFor int              `json:"stall_for,omitempty"` // ... for so many steps, or until nothing else can run
-	Final   string            `json:"final"` // quit | eof | none
-	Horizon int               `json:"horizon"`
-	Oracle  string            `json:"oracle"` // c04 | c16
-	Since   bool              `json:"since,omitempty"`
-	Seed    int64             `json:"seed,omitempty"`
-	Slow    int               `json:"slow,omitempty"`  // creation index of an engine goroutine that is held back (0 = none)
-	Until   int               `json:"until,omitempty"` // ... until this many steps after the release instant
+	Engine   string            `json:"engine"` // plain | morlock | turochamp | sargon | bernstein
+	Flags    map[string]string `json:"flags,omitempty"`
+	Script   []string          `json:"script"`
+	Release  int               `json:"release"`
+	Timer    int               `json:"timer"`               // step from which timers may fire
+	Cap      int               `json:"cap,omitempty"`       // > 0: the driver's buffered channels are scaled down to this capacity
+	Stall    int               `json:"stall,omitempty"`     // > 0: the GUI stops reading the output at this step ...
+	StallFor int               `json:"stall_for,omitempty"` // ... for so many steps, or until nothing else can run
+	Final    string            `json:"final"`               // quit | eof | none
+	Horizon  int               `json:"horizon"`
+	Oracle   string            `json:"oracle"` // c04 | c16
+	Since    bool              `json:"since,omitempty"`
+	Seed     int64             `json:"seed,omitempty"`
+	Slow     int               `json:"slow,omitempty"`  // creation index of an engine goroutine that is held back (0 = none)
+	Until    int               `json:"until,omitempty"` // ... until this many steps after the release instant
 }
 
 const startFEN = "rnbqkbnr/pppppppp/8/8/8/8/PPPPPPPP/RNBQKBNR w KQkq - 0 1"
